@@ -444,9 +444,13 @@ def backlinks_cleared_before_removal(prog, chk, rid):
             # edges on which the link is known null need no clearing
             cut = set()
             for b_ in f.blocks.values():
-                nt = fin.null_test(f, b_.get("cond")) if len(b_["succ"]) == 2 and b_.get("tk") != "SwitchStmt" else None
-                if nt is not None and lk.match(q.no_casts(nt[0])) and b_["succ"][nt[1]] is not None:
-                    cut.add((b_["id"], b_["succ"][nt[1]]))
+                if b_.get("cond") is None or len(b_["succ"]) != 2 or b_.get("tk") == "SwitchStmt":
+                    continue
+                for truth, null_succ in ((True, 1), (False, 0)):
+                    x_ = fin.nonzero_operand(f, b_["cond"], truth)       # non-zero on this edge: the other edge is the null edge
+                    if x_ is not None and b_["succ"][null_succ] is not None and \
+                       (lk.match(q.no_casts(f.r(x_))) or lk.match(q.no_casts(q.xr(f, x_)).strip("()"))):
+                        cut.add((b_["id"], b_["succ"][null_succ]))
             clears = [s_.node for s_ in q.stores(f) if s_.op == "=" and s_.rhs is not None and q.is_zero(f, s_.rhs) and
                       re.search(r"(\.|->)%s$" % back, q.no_casts(f.r(s_.lhs))) and
                       re.search(r"(^|[^\w>.])\*?\(?(%s)\)?(\.|->)%s(\W|$)" % (alt, link), q.no_casts(q.xr(f, f.nodes[s_.lhs]["c"][0])) + " ")]
